@@ -1,5 +1,6 @@
 import BluetoeModel.Cccd.Props
 import BluetoeModel.Cccd.Shape
+import BluetoeModel.Cccd.ShapeExact
 /-!
   # C09 (shared with C07) — accesses to the configuration array and to bound values stay in bounds
 
@@ -49,11 +50,34 @@ theorem step_keeps_shape (s : State) (hs : Shape s) (op : Op) :
 
 /-- **access_in_bounds**: the two access functions, for any attribute of a well shaped state -/
 theorem access_in_bounds (n : Nat) (mem : Mem) (cfg : Config) (sec : Sec) (a : Attr)
-    (ha : attrOk n mem a = true) (hl : cfg.length = cfgLen n) (off : Nat) (data : List UInt8) (bs : Nat) :
+    (ha : attrSafe n mem a = true) (hl : cfg.length = cfgLen n) (off : Nat) (data : List UInt8) (bs : Nat) :
     (∃ r, writeAccess mem cfg sec a off data = some r ∧ r.cfg.length = cfgLen n ∧
         r.mem.map List.length = mem.map List.length) ∧
     (a ≠ .ro → (∀ l, a ≠ .descr l) → (readAccess mem cfg sec a off bs).isSome) :=
   ⟨writeAccess_shape sec off data ha hl, readAccess_isSome off bs ha hl⟩
+
+/-- **attr_clause_exact**: the attribute clause is the weakest possible. For a table whose
+    attributes all have a handle (at most 0xFFFF of them) and `max_mtu_size ≥ 23`: no history is ever
+    answered out of bounds **iff** every attribute is `attrSafe` (a readable or writable value
+    refers to an object of `sizeof( T )` bytes, `position / 4` of a CCCD is inside `configs_`).
+    `declWF` demands the slightly stronger `attrOk` that the C++ types actually deliver (also for
+    values that are neither readable nor writable; position `< n`), `attrSafe_of_attrOk`. -/
+theorem attr_clause_exact (d : Decl) (mem : Mem) (hlen : d.attrs.length ≤ 65535) (hmtu : 23 ≤ d.serverMtu) :
+    (∀ ops, Out.oob ∉ (run (State.init d mem) ops).2) ↔ d.attrs.all (attrSafe d.nCccd mem) = true := by
+  constructor
+  · intro h
+    apply Classical.byContradiction
+    intro hne
+    obtain ⟨i, hi, hbad⟩ := exists_unsafe_index hne
+    obtain ⟨o, ho, hoob⟩ := handlePlain_oob (s := setConn (State.init d mem) 0 (encConn d)) (conn := encConn d)
+      0 i hi (by omega) rfl (connOk_init d).1 hbad
+    apply h [.sec 0 true 1, .pdu 0 [o, UInt8.ofNat ((i + 1) % 256), UInt8.ofNat ((i + 1) / 256)]]
+    have h16 : ¬ (o = 0x16 ∨ o = 0x18) := by rcases ho with rfl | rfl <;> decide
+    simp only [run, step_sec_init]
+    simp only [step, Op.conn, conn0_after_sec, h16, if_false, hoob]
+    simp
+  · intro h ops
+    exact (run_shape (shape_init_safe h hmtu) ops).2
 
 /-! ### non-vacuity -/
 
@@ -64,6 +88,11 @@ def exDecl5 : Decl :=
     nCccd := 5 }
 
 example : declWF exDecl5 [[1, 2], [3]] = true := by decide
+example : exDecl5.attrs.all (attrSafe exDecl5.nCccd [[1, 2], [3]]) = true := by decide
+
+/-- both directions are inhabited: `exDecl5` is safe; with a one byte variable behind the two byte
+    value it is not, and `sec 0 1 1; read 3` is the history `attr_clause_exact` constructs -/
+example : (run (State.init exDecl5 [[1], [3]]) [.sec 0 true 1, .pdu 0 [0x0a, 3, 0]]).2 = [.ok, .oob] := by decide
 
 example :
     (run (State.init exDecl5 [[1, 2], [3]]) [.pdu 1 [0x12, 10, 0, 3, 0], .pdu 1 [0x0a, 10, 0], .pdu 0 [0x0a, 10, 0]]).2
